@@ -195,7 +195,7 @@ func thoroughExtras(id string, pc *propCheck, w *World, r *Report, root string) 
 				}
 			}()
 			resetCaches()
-			w2 := Load(root, bc.env...)
+			w2 := Load(w.Root, bc.env...) // the (possibly flattened) tree the default configuration analysed
 			r2 := NewReport(id, "thorough", w2)
 			theWorld = w2
 			pc.run(w2, r2)
